@@ -437,14 +437,14 @@ impl<S: PageSize> Iterator for PageRangeInclusive<S> {
         if self.start <= self.end {
             let page = self.start;
 
-            // If the end of the inclusive range is the maximum page possible for size S,
-            // incrementing start until it is greater than the end will cause an integer overflow.
-            // So instead, in that case we decrement end rather than incrementing start.
-            let max_page_addr = VirtAddr::new(u64::MAX) - (S::SIZE - 1);
-            if self.start.start_address() < max_page_addr {
-                self.start += 1;
-            } else {
-                self.end -= 1;
+            // If `start` is the last page of the lower or of the higher half, there is no next
+            // page to step to: incrementing start would leave the canonical address space (or
+            // overflow). `start` is then necessarily the last page of the range, so we make the
+            // range empty by decrementing end instead.
+            let next_addr = self.start.start_address().as_u64().checked_add(S::SIZE);
+            match next_addr.map(VirtAddr::try_new) {
+                Some(Ok(addr)) => self.start = Page::containing_address(addr),
+                _ => self.end -= 1,
             }
             Some(page)
         } else {
